@@ -137,14 +137,41 @@ Definition ren_in : list (Z * Z) :=
 Definition ren_out : list (Z * Z) :=
   [(N_offset, K_StartTime); (N_column, K_Lane); (N_keysounds, K_KeySounds)].
 
+(* the reader as repaired in /repo (fix: "Quaver note reader applies the format defaults for omitted keys"):
+   reindex with the raw keys first, StartTime.fillna(0), Lane.fillna(1), every non-list KeySounds cell becomes [],
+   and only then EndTime -= StartTime, rename, column -= 1 (the later reindex/fillna are kept and now do nothing) *)
+Definition ks_fix (v : ytree) : option ytree := Some (match v with YList _ => v | _ => YList [] end).
 Definition hits_from_yaml (recs : list row) : option frame :=
+  let df := fr_require [K_StartTime; K_Lane; K_KeySounds] (fr_of_dicts recs) in
+  fr_map_col K_StartTime (some_fill (YInt 0)) df >>= fr_map_col K_Lane (some_fill (YInt 1)) >>=
+  fr_map_col K_KeySounds ks_fix >>= fun df =>
+  let df := fr_rename [(K_StartTime, N_offset); (K_Lane, N_column); (K_KeySounds, N_keysounds)] df in
+  fr_map_col N_column minus1 df >>= fun df =>
+  let df := fr_require [N_offset; N_column; N_keysounds] df in
+  fr_map_col N_offset (some_fill (YInt 0)) df >>= fun df =>
+  fr_map_col N_column (some_fill (YInt 0)) df.
+
+Definition holds_from_yaml (recs : list row) : option frame :=
+  let df := fr_require [K_StartTime; K_Lane; K_KeySounds; K_EndTime] (fr_of_dicts recs) in
+  fr_map_col K_StartTime (some_fill (YInt 0)) df >>= fr_map_col K_Lane (some_fill (YInt 1)) >>=
+  fr_map_col K_KeySounds ks_fix >>=
+  fr_set_col K_EndTime (fun r => match assoc K_EndTime r, assoc K_StartTime r with
+                                 | Some e, Some s => cell_sub e s | _, _ => None end) >>= fun df =>
+  let df := fr_rename [(K_StartTime, N_offset); (K_Lane, N_column); (K_KeySounds, N_keysounds); (K_EndTime, N_length)] df in
+  fr_map_col N_column minus1 df >>= fun df =>
+  let df := fr_require [N_offset; N_column; N_keysounds; N_length] df in
+  fr_map_col N_offset (some_fill (YInt 0)) df >>= fun df =>
+  fr_map_col N_column (some_fill (YInt 0)) df >>= fun df =>
+  fr_map_col N_length (some_fill (YInt 0)) df.
+
+(* OLD reader (pinned snapshot, before the repair): kept only so that the defects it had stay stated and checkable *)
+Definition hits_from_yaml_OLD (recs : list row) : option frame :=
   let df := fr_rename [(K_StartTime, N_offset); (K_Lane, N_column); (K_KeySounds, N_keysounds)] (fr_of_dicts recs) in
   fr_map_col N_column minus1 df >>= fun df =>                       (* df.column -= 1 : AttributeError if no Lane anywhere *)
   let df := fr_require [N_offset; N_column; N_keysounds] df in
   fr_map_col N_offset (some_fill (YInt 0)) df >>= fun df =>
   fr_map_col N_column (some_fill (YInt 0)) df.                      (* keysounds: no fillna *)
-
-Definition holds_from_yaml (recs : list row) : option frame :=
+Definition holds_from_yaml_OLD (recs : list row) : option frame :=
   let df := fr_of_dicts recs in
   (if fr_has K_StartTime df then Some df else None) >>= fun df =>   (* df["StartTime"] : KeyError *)
   fr_set_col K_EndTime (fun r => match assoc K_EndTime r, assoc K_StartTime r with
@@ -164,12 +191,13 @@ Section WithTables.
   (* live tables (Generated/Tables.v, Tables.c06): default columns of cls([]).df, metadata keys and defaults *)
   Variable hit_cols hold_cols bpm_cols sv_cols : list Z.
   Variable meta_defaults : list (Z * ytree).       (* (key, default attribute value) in _write_meta order *)
+  Variable hits_reader holds_reader : list row -> option frame.   (* Qua{Hit,Hold}List.from_yaml (current or OLD) *)
 
   Definition read_notes (recs : list row) : option (frame * frame) :=
     let hits := filter (fun r => negb (has_key K_EndTime r)) recs in
     let holds := filter (fun r => has_key K_EndTime r) recs in
-    (match hits with [] => Some (mkFrame hit_cols []) | _ => hits_from_yaml hits end) >>= fun h =>
-    (match holds with [] => Some (mkFrame hold_cols []) | _ => holds_from_yaml holds end) >>= fun l =>
+    (match hits with [] => Some (mkFrame hit_cols []) | _ => hits_reader hits end) >>= fun h =>
+    (match holds with [] => Some (mkFrame hold_cols []) | _ => holds_reader holds end) >>= fun l =>
     Some (h, l).
 
   Definition getd (k : Z) (d : ytree) (r : row) : ytree := match assoc k r with Some v => v | None => d end.
@@ -209,7 +237,7 @@ Section WithTables.
               end
             else Some (getd k dflt d)) meta_defaults.
 
-  Definition qua_read (doc : ytree) : option chart :=
+  Definition qua_read_gen (doc : ytree) : option chart :=
     match doc with
     | YMap d =>
         assoc K_HitObjects d >>= as_rows >>= read_notes >>= fun hl =>
@@ -303,7 +331,9 @@ Definition decode_default (e : Z * Z * list Z) : ytree :=
 Module Live.
   Definition meta_defaults : list (Z * ytree) :=
     map (fun kd => (fst kd, decode_default (snd kd))) Tables.Tables.c06.meta_defaults.
-  Definition read := qua_read Tables.Tables.c06.hit_cols Tables.Tables.c06.hold_cols Tables.Tables.c06.bpm_cols
-                              Tables.Tables.c06.sv_cols meta_defaults.
+  Definition read := qua_read_gen Tables.Tables.c06.hit_cols Tables.Tables.c06.hold_cols Tables.Tables.c06.bpm_cols
+                                  Tables.Tables.c06.sv_cols meta_defaults hits_from_yaml holds_from_yaml.
+  Definition read_OLD := qua_read_gen Tables.Tables.c06.hit_cols Tables.Tables.c06.hold_cols Tables.Tables.c06.bpm_cols
+                                      Tables.Tables.c06.sv_cols meta_defaults hits_from_yaml_OLD holds_from_yaml_OLD.
   Definition write := qua_write meta_defaults.
 End Live.
